@@ -28,6 +28,7 @@ def plan(tier, seed):
     specs = [{"tier": tier, "part": "bfs", "slice": [i, n], "seed": env.shard_seed(i), "depth": 2,
               "sample": 500 if tier == "quick" else None} for i in range(n)]
     specs += [{"tier": tier, "part": "random", "seed": env.shard_seed(50 + i), "n_seq": 250 if tier == "quick" else 3000} for i in range(n)]
+    specs += [{"tier": tier, "part": "embedded", "seed": env.shard_seed(90 + i), "n_seq": 60 if tier == "quick" else 800} for i in range(2 if tier == "quick" else 8)]
     return specs
 
 
@@ -237,6 +238,10 @@ def run_random(res, spec_, rng):
             fm, tm = p.modules[f], p.modules[t]
             p.connect(fm, ~tm if dis else tm)
             history.append([f, t, dis])
+            if rng.random() < 0.15:
+                p.read()  # the project is saved in the middle of the session; saving must not disturb later link requests
+                history.append("save")
+                res.count("saves_between_requests")
         res.hist("graph_shapes", shape)
         holes = sum(1 for m in p.modules if m for x in list(m.in_links)[:-1] + list(m.out_links)[:-1] if x == -1)
         res.count("interior_freed_slots", holes)
@@ -245,11 +250,58 @@ def run_random(res, spec_, rng):
             res.sample({"n": n, "ops[from,to,disconnect]": history[:12], "tables": [None if t is None else [list(x) for x in t] for t in tables(p)]})
 
 
+def run_embedded(res, spec_, rng):
+    """The same guarantees for the project embedded in a MetaModule, including after the LOADED embedded project is
+    edited by unplugging only (no other kind of edit) and the outer project is saved again."""
+    import rv.api as api
+    for s in range(spec_["n_seq"]):
+        inner = api.Project()
+        n = rng.randint(3, 6)
+        for _ in range(n - 1):
+            inner.new_module(api.m.Amplifier)
+        live = list(range(n))
+        for _ in range(rng.randint(2, 10)):
+            f, t = rng.choice(live), rng.choice(live)
+            inner.connect(inner.modules[f], ~inner.modules[t] if rng.random() < 0.25 else inner.modules[t])
+        outer = api.Project()
+        outer.new_module(api.m.MetaModule, project=inner)
+        res.count("states")
+        res.count("embedded_states")
+        res.case(("embedded", tuple(map(repr, tables(inner)))))
+        case = {"origin": "embedded", "tables": [None if t is None else [list(x) for x in t] for t in tables(inner)]}
+        try:
+            o2 = workload.load(outer.read())
+        except Exception as e:
+            res.violation(f"C08:embedded-unloadable:{workload.exc_key(e)}", f"project with embedded graph does not load: {e!r}", case)
+            continue
+        in2 = o2.modules[1].project
+        res.count("native_roundtrips")
+        res.count("consistency_evaluations")
+        if monitors.links_consistent(in2) or tables(in2) != tables(inner):
+            res.violation("C08:tables-differ:embedded", f"embedded graph before {tables(inner)} after {tables(in2)}", case)
+            continue
+        # unplug-only edits of the loaded embedded project
+        edges = monitors.edge_multiset(in2)
+        if not edges:
+            continue
+        for f, t in rng.sample(edges, rng.randint(1, min(2, len(edges)))):
+            in2.connect(in2.modules[f], ~in2.modules[t])
+        want = tables(in2)
+        o3 = workload.load(o2.read())
+        in3 = o3.modules[1].project
+        res.count("embedded_unplug_roundtrips")
+        res.count("consistency_evaluations")
+        if monitors.links_consistent(in3) or tables(in3) != want:
+            res.violation("C08:tables-differ:embedded-after-unplug", f"embedded graph after unplugging {want}, after save+load {tables(in3)}", case)
+
+
 def run_shard(spec_, res):
     rng = random.Random(spec_["seed"])
     monitors.install()
     if spec_["part"] == "bfs":
         run_bfs(res, spec_, rng)
+    elif spec_["part"] == "embedded":
+        run_embedded(res, spec_, rng)
     else:
         run_random(res, spec_, rng)
     for name, msg in monitors.take_failures():
